@@ -8,7 +8,7 @@
 (* primary holds at the entry's location), v |-> version of the location].  *)
 (* `where` says whether the bucket's list currently lives in the in-memory  *)
 (* pool or only on disk, so that replay drives both read paths.             *)
-EXTENDS Bytes, FiniteSets, TLC
+EXTENDS RLOps, FiniteSets, TLC
 
 CONSTANTS Keys,        \* set of equal-length, pairwise distinct byte sequences
           MaxPresent   \* bound on simultaneously present keys
@@ -21,48 +21,6 @@ VARIABLES rl,          \* the record list: sequence of entries
 vars == <<rl, cur, where, hist>>
 View == <<rl, cur, where>>
 
-\* ---- RecordList.FindKeyPosition: first index whose prefix > key, else Len+1
-FindPos(l, key) ==
-  IF \E i \in 1..Len(l) : Greater(l[i].p, key)
-  THEN CHOOSE i \in 1..Len(l) : Greater(l[i].p, key) /\ \A j \in 1..(i - 1) : ~Greater(l[j].p, key)
-  ELSE Len(l) + 1
-
-\* ---- RecordList.Get / GetRecord: scan, remember the last prefix match, stop at
-\*      the first entry that is not a prefix of key and compares greater
-StopAt(l, key) ==
-  IF \E i \in 1..Len(l) : ~IsPrefix(l[i].p, key) /\ Greater(l[i].p, key)
-  THEN CHOOSE i \in 1..Len(l) :
-         /\ ~IsPrefix(l[i].p, key) /\ Greater(l[i].p, key)
-         /\ \A j \in 1..(i - 1) : ~(~IsPrefix(l[j].p, key) /\ Greater(l[j].p, key))
-  ELSE Len(l) + 1
-
-Match(l, key) ==
-  LET s == StopAt(l, key) IN
-  IF \E i \in 1..(s - 1) : IsPrefix(l[i].p, key)
-  THEN CHOOSE i \in 1..(s - 1) : IsPrefix(l[i].p, key) /\ \A j \in (i + 1)..(s - 1) : ~IsPrefix(l[j].p, key)
-  ELSE 0
-
-\* ---- Index.Put on an existing list (the trimming rule)
-PutList(l, k, ver) ==
-  LET pos  == FindPos(l, k)
-      has  == pos > 1
-      prev == l[pos - 1]
-  IN IF has /\ IsPrefix(prev.p, k)
-     THEN \* previous prefix is contained in the new key: read the previous full key
-          LET pk == prev.k
-              t  == FNCB(k, pk)
-              tp == [p |-> Take(pk, Min(t + 1, Len(pk))), k |-> prev.k, v |-> prev.v]
-              tk == [p |-> Take(k, t + 1), k |-> k, v |-> ver]
-          IN IF t >= Len(k) THEN l     \* same key already there: no-op
-             ELSE Splice(l, pos - 1, pos, IF Greater(tk.p, tp.p) THEN <<tp, tk>> ELSE <<tk, tp>>)
-     ELSE LET a == IF has THEN FNCB(k, prev.p) ELSE 0
-              b == IF pos <= Len(l) THEN FNCB(k, l[pos].p) ELSE 0
-              t == Min(Max(a, b), Len(k) - 1)
-          IN Splice(l, pos, pos, << [p |-> Take(k, t + 1), k |-> k, v |-> ver] >>)
-
-\* first key of an empty bucket: one byte
-PutFirst(k, ver) == << [p |-> Take(k, 1), k |-> k, v |-> ver] >>
-
 Present == {k \in Keys : cur[k] # 0}
 
 Init ==
@@ -74,7 +32,7 @@ Init ==
 PutNew(k) ==
   /\ cur[k] = 0
   /\ Cardinality(Present) < MaxPresent
-  /\ rl' = (IF where = "none" THEN PutFirst(k, 1) ELSE PutList(rl, k, 1))
+  /\ rl' = (IF where = "none" THEN PutFirstV(k, 1) ELSE PutListV(rl, k, 1))
   /\ cur' = [cur EXCEPT ![k] = 1]
   /\ where' = "pool"
   /\ hist' = Append(hist, [op |-> "put", k |-> k])
